@@ -350,4 +350,21 @@ PROPS = {
                     "collision resistance is assumed", "that the closure loop reaches exactly the reachable types is tied by the "
                     "correspondence, not proved"],
     },
+    "C19": {
+        "props_module": "Aldrin.Props.C19",
+        "namespace": "Aldrin.Disc",
+        "level": "proof",
+        "run": generic_run("disc", {"ddrain", "dstate", "dbus"}, {"C19"}, {"quick": (120, 4), "thorough": (1500, 14)},
+                           canon=None, scenario_cmd="dnew", full_canon=lambda q, line: line,
+                           rule="scenarios against a real broker (aldrin-test TestBroker on a current-thread tokio runtime): one client "
+                                "creating / destroying objects and services over pools of 3 object and 3 service UUIDs (re-creation under "
+                                "new cookies, partial service sets, destruction of objects with services), one client with a Discoverer "
+                                "of 1-3 entries of all four kinds, built before or after the bus is populated, restarted (all / current "
+                                "only) at random points; after every bus operation the discoverer is drained and its events compared, "
+                                "its found-set is dumped at random points and at the end, where it is also checked against the bus "
+                                "(implementation-only oracle); one request line = one bus event / drain / dump"),
+        "trusted": ["the harness derives the bus events an operation stands for (object destruction reports its services first) from the "
+                    "results of the client API; the order of the discoverer's events for one bus operation is compared as a multiset "
+                    "(entries are iterated in hash order)"],
+    },
 }
